@@ -177,7 +177,7 @@ static void judge_double(double d, vf::Rng& r, bool heavy) {
   vf::witness(&bits, 8);
   // exact 33-byte block, fresh for every call under ASan builds (cheap: ASan quarantines)
 #if VF_SANITIZER
-  char* out = (char*)malloc(33);
+  char* out = (char*)malloc(32);  // the buffer size the unit tests hand to the formatters
 #else
   if (!g_buf33) g_buf33 = (char*)malloc(64);
   char* out = g_buf33;
@@ -283,7 +283,7 @@ static void judge_u64(uint64_t v, bool roundtrip) {
   c_u.add();
   vf::eval();
 #if VF_SANITIZER
-  char* out = (char*)malloc(33);
+  char* out = (char*)malloc(32);  // the buffer size the unit tests hand to the formatters
 #else
   if (!g_buf33) g_buf33 = (char*)malloc(64);
   char* out = g_buf33;
@@ -317,7 +317,7 @@ static void judge_i64(int64_t v, bool roundtrip) {
   c_i.add();
   vf::eval();
 #if VF_SANITIZER
-  char* out = (char*)malloc(33);
+  char* out = (char*)malloc(32);  // the buffer size the unit tests hand to the formatters
 #else
   if (!g_buf33) g_buf33 = (char*)malloc(64);
   char* out = g_buf33;
